@@ -735,6 +735,7 @@ def finish_result(case, raw):
         mask = [True] * (k if k is not None else L.count_leaves(case["expr"]))
     rgk = rg_kind_of(mask, case.get("rhs_rg", True), has_rhs)
     res = {"status": raw["status"], "fail": raw.get("fail"), "forward_agrees": raw.get("forward_agrees"),
+           "forward_differs_nearby": raw.get("forward_differs_nearby"),
            "max_err": raw.get("max_err"), "tol": raw.get("tol")}
     c2 = dict(case)
     c2["rg_mask"] = mask
